@@ -409,6 +409,43 @@ class World:
             def finalize_with_tag(self, tag):
                 return self._finish(tag)
 
+        class Encryptor:
+            """streaming AES-GCM encryption: every update() yields fresh ciphertext octets of the same length; finalize() seals the message - the record
+            (key, nonce, all ciphertext pieces + tag) -> all plaintext pieces is what decryption (one-shot or streaming) later recognises"""
+
+            def __init__(self, key, mode):
+                self.key, self.mode, self.pt, self.ct, self.tag_, self.done = key, mode, [], [], None, False
+
+            def authenticate_additional_data(self, data):
+                if V.blen(data):
+                    raise NotImplementedError("AAD is not modelled")
+
+            def update(self, data):
+                if self.done:
+                    raise ValueError("Context was already finalized.")
+                n = V.blen(data)
+                if isinstance(n, int) and n == 0:
+                    return b""
+                world.n += 1
+                piece = world.c.bytes(f"ctpiece{world.n}", n) if isinstance(n, int) and n <= 4096 else world.c.blob_of_len(f"ctpiece{world.n}", n)
+                self.pt.append(data)
+                self.ct.append(piece)
+                return piece
+
+            def finalize(self):
+                if self.done:
+                    raise ValueError("Context was already finalized.")
+                self.done = True
+                self.tag_ = world.fresh("gcmtag", 16)
+                world.aead.append(((self.key, self.mode.iv, _cat(self.ct + [self.tag_])), _cat(self.pt)))
+                return b""
+
+            @property
+            def tag(self):
+                if not self.done:
+                    raise ValueError("You must finalize encryption before getting the tag.")
+                return self.tag_
+
         class UnauthMode:
             """CBC / CTR / CFB / OFB / ECB ...: a mode that does not authenticate"""
 
@@ -441,7 +478,9 @@ class World:
                 return Decryptor(self.algorithm.key, self.mode)
 
             def encryptor(self):
-                raise NotImplementedError("streaming encryption is not modelled")
+                if isinstance(self.mode, UnauthMode):
+                    raise NotImplementedError("encryption in an unauthenticated mode is not modelled")
+                return Encryptor(self.algorithm.key, self.mode)
 
         class FakePKCS7:
             def __init__(self, block_size):
